@@ -1497,6 +1497,7 @@ class Exec:
         base = len(st.pc)
         guard_idx = set()
         saved_env = dict(st.env)
+        next0 = st.next_ref
         for j, x in enumerate(e.values):
             snap = self._heap_snapshot(st)
             if j > 0:
@@ -1511,6 +1512,9 @@ class Exec:
             guard_idx.add(len(st.pc))
             st.pc.append(t if is_and else z3.Not(t))
         self._guarded_eval(st, base, guard_idx)
+        if st.next_ref is not next0:
+            # the allocation counter only grows; when a later operand is skipped its (then unconstrained) counter symbol is chosen >= the earlier one
+            st.assume(st.next_ref >= next0)
         for k_, v_ in saved_env.items():
             if k_ in st.env and st.env[k_].t is v_.t:
                 st.env[k_] = v_            # undo the narrowing (the terms are unchanged; only the static types were refined)
